@@ -194,7 +194,7 @@ def run(chk):
         is_zi = fn.endswith('zi')
         for k in range(n):
             m, z0 = gen_case(rng)
-            mode = 'alias' if (not is_zi and k % 3 == 2) else 'sep'
+            mode = 'alias' if k % 3 == 2 else 'sep'
             cases.append((fn, mode, m, z0))
             lines.append(fmt_line(fn, mode, m, z0))
     cout, crc, cerr = vlib.run_lines(exe, lines)
